@@ -215,7 +215,7 @@ func checkC08(c C08Case) Verdict {
 		tmpl, d, cfg int
 	}
 	first := map[key]string{}
-	refOut := map[int]ref.Result{}
+	refOut := map[[2]int]ref.Result{}
 	refMarked := map[int]ref.Result{}
 	renderers := map[string]*soyhtml.Renderer{}
 	config := 0
@@ -315,15 +315,16 @@ func checkC08(c C08Case) Verdict {
 			}
 			// a render is a pure function of (template, data): it must also equal what the reference
 			// interpreter defines, whatever was rendered before (in this history or earlier in the process)
-			if op.Op == "render" && di == ti && len(c08Configs[config]) == 0 && p == nil {
-				want, cached := refOut[ti]
+			if op.Op == "render" && di == ti && p == nil {
+				// (under every configuration: the obligatory directives are part of the reference render)
+				want, cached := refOut[[2]int{ti, config}]
 				if !cached {
-					want = ref.Render(&c.Prog.Prog, fqs[ti], c.Prog.AllData[fqs[ti]], c.Prog.IJ, c.Prog.HasIJ)
-					refOut[ti] = want
+					want = ref.RenderObligatory(&c.Prog.Prog, fqs[ti], c.Prog.AllData[fqs[ti]], c.Prog.IJ, c.Prog.HasIJ, c08Configs[config])
+					refOut[[2]int{ti, config}] = want
 				}
 				switch {
 				case want.Status == ref.OK && (rerr != nil || ref.CanonRefs(buf.String()) != ref.CanonRefs(want.Out)):
-					failure = fmt.Errorf("step %d: render of %s gives %q (error %v); the language defines %q - the result depends on what was rendered before", i, fqs[ti], trunc(buf.String(), 400), rerr != nil, trunc(want.Out, 400))
+					failure = fmt.Errorf("step %d: render of %s with obligatory directives %v gives %q (error %v); the language defines %q - the result depends on what was rendered before", i, fqs[ti], c08Configs[config], trunc(buf.String(), 400), rerr != nil, trunc(want.Out, 400))
 				case want.Status == ref.Valueless && rerr == nil:
 					failure = fmt.Errorf("step %d: render of %s returned no error for a valueless expression", i, fqs[ti])
 				}
